@@ -79,7 +79,7 @@ func (CON) Generate(seed uint64, tier string) *core.Scenario {
 				// a second foreign key (child.pc -> parent.code, a non-key column), a second unique key
 				// (n, m) or a second CHECK (m < 3) declared on main after b1 branched off: the merge base
 				// knows neither the constraint nor its index
-				b.Ops = append(b.Ops, ConOp{S: s, Kind: []string{"addfk", "adduq", "addck"}[r.Intn(3)]})
+				b.Ops = append(b.Ops, ConOp{S: s, Kind: []string{"addfk", "adduq", "addck", "mkuniq", "mkuniq"}[r.Intn(5)]})
 			} else {
 				b.Ops = append(b.Ops, ConOp{S: s, Kind: "pupd", ID: r.Intn(4), N: r.Intn(4)})
 			}
@@ -153,6 +153,25 @@ func (CON) Generate(seed uint64, tier string) *core.Scenario {
 		at := r.Intn(len(b.Ops) + 1)
 		b.Ops = append(b.Ops[:at], append(seq, b.Ops[at:]...)...)
 	}
+	if r.Chance(1, 4) {
+		// a second directed piece: b1 turns the plain index kmp (m, pc) into a unique one in place, main
+		// then commits two rows that are equal in (m, pc) - legal on main, whose index is still plain -
+		// and b1 is merged into main: the merged schema has the unique index, the merged rows violate it
+		s1 := r.Intn(b.NSess)
+		rid, xid := r.Intn(6), r.Intn(6)
+		for xid == rid {
+			xid = r.Intn(6)
+		}
+		mv, pv := r.Range(-1, 2), r.Intn(4)
+		seq := []ConOp{
+			{Kind: "mkuniq"}, {S: s1, Kind: "commit"},
+			{S: s1, Kind: "cdel", ID: rid}, {S: s1, Kind: "cdel", ID: xid},
+			{S: s1, Kind: "cins", ID: rid, N: 2, M: mv, PC: ip(pv)}, {S: s1, Kind: "cins", ID: xid, N: 2, M: mv, PC: ip(pv)},
+			{S: s1, Kind: "commit"}, {Kind: "merge"},
+		}
+		at := r.Intn(len(b.Ops) + 1)
+		b.Ops = append(b.Ops[:at], append(seq, b.Ops[at:]...)...)
+	}
 	for s := 0; s < b.NSess; s++ {
 		b.Ops = append(b.Ops, ConOp{S: s, Kind: "commit"})
 	}
@@ -169,7 +188,9 @@ type conViol struct {
 // evalConstraints re-checks the declared constraints over full scans of both tables.
 // conDecl: the constraints declared on main after b1 branched off (ALTER TABLE): fk2 child.pc ->
 // parent.code, uq2 UNIQUE (n, m), ck2 CHECK (m < 3).
-type conDecl struct{ fk2, uq2, ck2 bool }
+// uq3: the plain index kmp (m, pc) of the base schema was turned into a unique one in place (same name, same
+// columns) - on b1, from where a merge carries it to main.
+type conDecl struct{ fk2, uq2, ck2, uq3 bool }
 
 // parent rows: id, v, code; child rows: id, pid, u, n, m, pc, a, b.
 func evalConstraints(parent, child [][]string, d conDecl) []conViol {
@@ -218,6 +239,10 @@ func evalConstraints(parent, child [][]string, d conDecl) []conViol {
 			k := "nm:" + r[3] + "," + r[4]
 			us[k] = append(us[k], r[0])
 		}
+		if d.uq3 && r[5] != "NULL" {
+			k := "mp:" + r[4] + "," + r[5]
+			us[k] = append(us[k], r[0])
+		}
 	}
 	for id, c := range ids {
 		if c > 1 {
@@ -234,11 +259,16 @@ func evalConstraints(parent, child [][]string, d conDecl) []conViol {
 	return out
 }
 
-func declIf(d conDecl, on bool) conDecl {
-	if on {
-		return d
+// declFor: which late declarations hold for what a reader sees: main's for the sessions on main, b1's for
+// the session on b1, none for a read AS OF an older commit.
+func declFor(main, b1 conDecl, onB1, current bool) conDecl {
+	switch {
+	case !current:
+		return conDecl{}
+	case onB1:
+		return b1
 	}
-	return conDecl{}
+	return main
 }
 
 func (CON) Execute(t *testing.T, sc *core.Scenario) *core.Result {
@@ -271,7 +301,7 @@ func (CON) Execute(t *testing.T, sc *core.Scenario) *core.Result {
 	}
 	for _, q := range []string{
 		"CREATE TABLE parent (id INT PRIMARY KEY, v INT, code INT)",
-		"CREATE TABLE child (id INT PRIMARY KEY, pid INT, u INT, n INT NOT NULL, m INT NOT NULL, pc INT, a INT, b INT, CONSTRAINT fkp FOREIGN KEY (pid) REFERENCES parent (id), UNIQUE KEY uu (u), UNIQUE KEY uab (a, b), CONSTRAINT ck CHECK (n >= m))",
+		"CREATE TABLE child (id INT PRIMARY KEY, pid INT, u INT, n INT NOT NULL, m INT NOT NULL, pc INT, a INT, b INT, CONSTRAINT fkp FOREIGN KEY (pid) REFERENCES parent (id), UNIQUE KEY uu (u), UNIQUE KEY uab (a, b), KEY kmp (m, pc), CONSTRAINT ck CHECK (n >= m))",
 		"INSERT INTO parent VALUES (0, 0, 0), (1, 0, 1)",
 		"CALL dolt_commit('-Am', 'schema')",
 		"CALL dolt_branch('b1')",
@@ -310,7 +340,7 @@ func (CON) Execute(t *testing.T, sc *core.Scenario) *core.Result {
 	}
 	sig := core.NewSig()
 	refusals, mergesWithViolations := 0, 0
-	var declMain conDecl
+	var declMain, declB1 conDecl
 	lit := func(p *int) string {
 		if p == nil {
 			return "NULL"
@@ -326,7 +356,7 @@ func (CON) Execute(t *testing.T, sc *core.Scenario) *core.Result {
 			return
 		}
 		res.Evaluations++
-		for _, v := range evalConstraints(p, c, declIf(declMain, reader != bs && suffix == "")) {
+		for _, v := range evalConstraints(p, c, declFor(declMain, declB1, reader == bs, suffix == "")) {
 			res.Violate("committed-data-violates-constraint", "constraint="+v.Kind, step, "%s: committed tables violate %s (child/row %s)\nparent:\n%s\nchild (id|pid|u|n|m|pc|a|b):\n%s", where, v.Kind, v.ID, indent(rowsKey(p)), indent(rowsKey(c)))
 			break
 		}
@@ -353,6 +383,24 @@ func (CON) Execute(t *testing.T, sc *core.Scenario) *core.Result {
 				}
 			}
 			checkMain("after ALTER TABLE ... ADD FOREIGN KEY", step)
+			continue
+		}
+		if op.Kind == "mkuniq" {
+			// on b1: the plain index kmp becomes a unique one under the same name and over the same columns
+			// (the stored layout of the two is the same; what differs is what a merge has to validate)
+			if declB1.uq3 {
+				continue
+			}
+			if _, err := bs.Exec(ctx, "ALTER TABLE child DROP INDEX kmp"); err == nil {
+				if _, err := bs.Exec(ctx, "ALTER TABLE child ADD UNIQUE INDEX kmp (m, pc)"); err == nil {
+					declB1.uq3 = true
+					res.Fault("index-made-unique-in-place-on-b1")
+				} else {
+					res.Probe("mkuniq_refused")
+					bs.Exec(ctx, "ALTER TABLE child ADD INDEX kmp (m, pc)")
+				}
+			}
+			check(bs, "", "branch b1 after the index was made unique", step)
 			continue
 		}
 		if op.Kind == "adduq" || op.Kind == "addck" {
@@ -414,6 +462,10 @@ func (CON) Execute(t *testing.T, sc *core.Scenario) *core.Result {
 			} else {
 				res.Fault("branch-merge")
 				_ = rows
+				if declB1.uq3 && !declMain.uq3 {
+					declMain.uq3 = true
+					res.Fault("unique-in-place-merged-into-main")
+				}
 			}
 			checkMain("after dolt_merge('b1')", step)
 			continue
@@ -533,6 +585,9 @@ func (CON) Execute(t *testing.T, sc *core.Scenario) *core.Result {
 							r[0] = []string{"foreign key", "unique index", "check constraint", "not null"}[n-1]
 						}
 						recorded[r[0]+"/"+r[1]] = true
+					}
+					if declB1.uq3 {
+						declMain.uq3 = true
 					}
 					found := evalConstraints(p, c, declMain)
 					if len(found) > 0 {
